@@ -11,10 +11,36 @@ func RemoveMatchComments(file *ast.File, pattern *regexp.Regexp) {
 	for _, group := range file.Comments {
 		_ = ExtractMatchComments(group, pattern)
 	}
-	// A group that lost all its lines has no position: it must not stay linked as the file's doc comment.
-	if file.Doc != nil && len(file.Doc.List) == 0 {
-		file.Doc = nil
+	// A group that lost all its lines has no position: it must not stay linked as a doc or line
+	// comment of any node.
+	unlink := func(group **ast.CommentGroup) {
+		if *group != nil && len((*group).List) == 0 {
+			*group = nil
+		}
 	}
+	ast.Inspect(file, func(node ast.Node) bool {
+		switch n := node.(type) {
+		case *ast.File:
+			unlink(&n.Doc)
+		case *ast.GenDecl:
+			unlink(&n.Doc)
+		case *ast.FuncDecl:
+			unlink(&n.Doc)
+		case *ast.TypeSpec:
+			unlink(&n.Doc)
+			unlink(&n.Comment)
+		case *ast.ValueSpec:
+			unlink(&n.Doc)
+			unlink(&n.Comment)
+		case *ast.ImportSpec:
+			unlink(&n.Doc)
+			unlink(&n.Comment)
+		case *ast.Field:
+			unlink(&n.Doc)
+			unlink(&n.Comment)
+		}
+		return true
+	})
 }
 
 // MatchComments reports whether any comment line in commentGroup contains
